@@ -158,7 +158,7 @@ QUERIES = [
                          + [{"shape": "chain2", "be": "local", "earlier": False, "fresh": True}, {"shape": "chain2+sink", "be": "slurm", "earlier": False, "fresh": True},
                             {"shape": "chain2", "be": "sge", "earlier": False, "fresh": True}, {"shape": "chain2", "be": "lsf", "earlier": False, "fresh": True}],
                 "thorough": [{"shape": "chain2", "be": b, "ja": a, "jb": jb_, "hashing": h} for b in ("slurm", "sge", "lsf", "local") for a in range(4) for jb_ in range(4) for h in (False, True)]
-                            + [{"shape": s, "be": b, "earlier": False, "pert": p} for s, np in (("fork3", 5), ("join3", 6), ("chain3", 5)) for b in ("slurm", "sge", "lsf", "local") for p in range(np)]
+                            + [{"shape": s, "be": b, "earlier": False, "pert": p} for s, np in (("fork3", 5), ("join3", 6), ("chain3", 5)) for b in ("slurm", "local") for p in range(np)]
                             + [{"shape": "chain2+sink", "be": b, "earlier": False} for b in ("slurm", "local")] + [{"shape": "diamond4", "be": "slurm", "earlier": False, "fresh": True, "pert": p} for p in range(6)]},
      "timeout": {"quick": 1500, "thorough": 3600},
      "bound": "chain of 2 with earlier job states of A and B in {none, failed, cancelled, completed} (4 combinations quick, all 16 thorough), existence and modification time (symbolic int) of every file, finish time of every job (symbolic int under the scheduler contract), "
